@@ -200,6 +200,20 @@ class Ctx:
             w = fresh_int(f.name)
             self.pc.append(f.at(w))
             self.hint(w)
+        elif isinstance(f, smt.Sequent):
+            # (premises => goal) as an assumption: an existential goal is skolemised under the premises
+            prem = [lift(h) if isinstance(h, bool) else h for h in f.hyps]
+            if any(not z3.is_expr(h) for h in prem):
+                raise Unsupported('assumed sequent with non-formula premises')
+            g = f.goal
+            if isinstance(g, smt.Exists):
+                w = fresh_int(g.name)
+                self.pc.append(z3.Implies(z3.And(*prem) if prem else z3.BoolVal(True), g.at(w)))
+                self.hint(w)
+            elif isinstance(g, smt.Forall):
+                self.assume(smt.Implies(z3.And(*prem) if prem else z3.BoolVal(True), g))
+            else:
+                self.pc.append(z3.Implies(z3.And(*prem) if prem else z3.BoolVal(True), smt._b(g)))
         elif isinstance(f, (list, tuple)):
             for g in f:
                 self.assume(g)
@@ -543,6 +557,17 @@ class Interp:
                     and isinstance(body[0].value.value, str):
                 self.dropped.docstrings += 1
                 body = body[1:]
+            cut = getattr(frame.contract, 'entry_cut', None) if len(self.ctx.fn_stack) <= 2 and self.ctx.fn_stack[0] == fi.qualname else None
+            if cut is not None:
+                want = cut['first_assigns']
+                k = next((j for j, st in enumerate(body) if isinstance(st, ast.Assign) and any(
+                    isinstance(t, ast.Name) and t.id == want for t in st.targets)), None)
+                if k is None:
+                    raise Unsupported(f'block contract: no top-level statement assigns `{want}`')
+                self.ctx.ghost['entry_cut'] = {'function': fi.qualname, 'verified_from_line': body[k].lineno,
+                                               'unverified_lines': [body[0].lineno, body[k].lineno - 1] if k else None}
+                frame.env.update(cut['state'](self.ctx, frame.env))
+                body = body[k:]
             try:
                 self.exec_block(body, frame)
             except ReturnSig as r:
@@ -661,6 +686,17 @@ class Interp:
             new = cur.iadd_list(self.ctx, rhs)      # in-place, like list.__iadd__
         elif isinstance(cur, list) and op == 'Add' and isinstance(rhs, list):
             cur.extend(rhs)
+            new = cur
+        elif isinstance(cur, Model) and isinstance(s.target, ast.Name) and getattr(cur, 'pytype', None) in ('Series', 'ndarray', 'DataFrame'):
+            # numpy arrays and pandas objects implement the augmented operators *in place*: every alias of the object sees the
+            # change.  The symbolic object itself takes the new state (aliases share it, as in CPython).
+            new = self.binop(op, cur, rhs)
+            if getattr(cur, 'column_of', None) is not None:
+                raise Unsupported('in-place operator on a column handed out by a frame (write-through depends on the pandas version)')
+            if not (isinstance(new, Model) and type(new) is type(cur)):
+                raise Unsupported(f'in-place operator {op} changes the representation of {type(cur).__name__}')
+            cur.__dict__.clear()
+            cur.__dict__.update(new.__dict__)
             new = cur
         else:
             new = self.binop(op, cur, rhs)
@@ -1658,6 +1694,8 @@ class Interp:
             (x,) = args
             if isinstance(x, (list, tuple)):
                 return [(i, v) for i, v in enumerate(x)]
+            if isinstance(x, Model) and hasattr(x, 'items') and isinstance(getattr(x, 'items'), list):
+                return [(i, v) for i, v in enumerate(x.items)]      # array of concrete length: iteration over its elements
             if isinstance(x, Model):
                 kind, n, getter = x.sym_iter(ctx)
                 return SEnum(n, getter)
